@@ -489,7 +489,7 @@ def _prince_job(name, lower, n, m, hash_seed, n_file=None):
         return out
     p = subprocess.run([sys.executable, "-W", "ignore", os.path.join(code, "prince_ling.py")] + base + ["--size", str(n)],
                        stdin=subprocess.DEVNULL, stdout=subprocess.PIPE, stderr=subprocess.DEVNULL, timeout=600,
-                       env=dict(os.environ, PYTHONUTF8="1", PYTHONHASHSEED=str(hash_seed)))
+                       env=scratch.child_env(PYTHONUTF8="1", PYTHONHASHSEED=str(hash_seed)))
     got = p.stdout.decode(ref.encoding, "surrogateescape").split("\n")[:-1]
     if got != lines[:n]:
         k = next((i for i, (a, b) in enumerate(zip(got, lines)) if a != b), min(len(got), n))
@@ -504,7 +504,7 @@ def _prince_job(name, lower, n, m, hash_seed, n_file=None):
         p = subprocess.run([sys.executable, "-W", "ignore", os.path.join(code, "prince_ling.py")] + base +
                            ["--size", str(n_file), "-o", ofile],
                            stdin=subprocess.DEVNULL, stdout=subprocess.PIPE, stderr=subprocess.DEVNULL, timeout=600,
-                           env=dict(os.environ, PYTHONUTF8="1", PYTHONHASHSEED=str(hash_seed + 1)))
+                           env=scratch.child_env(PYTHONUTF8="1", PYTHONHASHSEED=str(hash_seed + 1)))
         try:
             ftext = open(ofile, "rb").read().decode(ref.encoding, "surrogateescape")
         except OSError:
